@@ -209,6 +209,8 @@ def r_alias(A, ctx, scope, rule="R-ALIAS"):
                                         f"the solver works in place on the caller's `{p}` (pair (w, Xw) handed "
                                         "over by path() and warm starts); after this statement the caller's "
                                         "buffer no longer follows the iterate", loc=loc(f, st))
+    for k, v in CALLER_INITIALISED.items():
+        ctx.note(f"{rule}: {k} exempt: {v}")
     ctx.floor(rule, n, scope.get("floor", 10))
 
 
@@ -297,6 +299,8 @@ def r_zerocol(A, ctx, scope, rule="R-ZEROCOL"):
                         f"without executing `{norm_src(st)[:60]}` (zero-curvature `continue`): a "
                         "warm-started coefficient on an all-zero column / group is never shrunk",
                    loc=loc(f, st))
+    for k, v in CALLER_INITIALISED.items():
+        ctx.note(f"{rule}: {k} exempt: {v}")
     ctx.floor(rule, n, scope.get("floor", 10))
 
 
@@ -832,6 +836,8 @@ def r_lazyset(A, ctx, scope, rule="R-LAZYSET"):
                             "when the same (compiled) object is initialised again on other data the attribute still "
                             "describes the previous data, and value / gradient accessors read it",
                        loc=loc(m, cfg.nodes[nodes[0]].ast))
+    for k, v in CALLER_INITIALISED.items():
+        ctx.note(f"{rule}: {k} exempt: {v}")
     ctx.floor(rule, n, scope.get("floor", 10))
 
 
@@ -876,3 +882,88 @@ def r_accessor_pure(A, ctx, scope, rule="R-ACCESSOR-PURE"):
                          "alias each other) and accessor values depend on earlier calls") if bad is not None else "",
                    loc=loc(m, bad) if bad is not None else None)
     ctx.floor(rule, n, scope.get("floor", 200))
+
+
+# datafits whose initialisation is the caller's documented duty (the solver cannot do it: the
+# attributes are derived from a two-column target the solver treats as opaque)
+CALLER_INITIALISED = {
+    "Cox": "tie / risk-set matrices are built by the caller: CoxEstimator.fit and the documented usage call "
+           "datafit.initialize(X, y) before solver.solve",
+}
+
+
+def r_lazyread(A, ctx, scope, rule="R-LAZYREAD"):
+    """C14 / C18: a solver that never initialises the datafit must not reach its lazy attributes"""
+    ctx.rule(rule, "datafit typestate, solvers without initialisation: a solver module that contains no call to "
+             "initialize / initialize_sparse calls only datafit methods that do not read (directly or through "
+             "`self.<method>()`) an attribute assigned by initialize / initialize_sparse alone - such an "
+             "attribute holds the cache of whatever data the object was last initialised on (or does not "
+             "exist), so the solver would silently optimise another problem than the (X, y) it was given")
+    n = 0
+    solver_mods = {}
+    for cls in A.prog.solvers:
+        solver_mods.setdefault(cls.module, []).append(cls)
+    for mod, classes in sorted(solver_mods.items(), key=lambda kv: kv[0].relpath):
+        called, inits = {}, False
+        for node in ast.walk(mod.tree):
+            if isinstance(node, ast.Call) and isinstance(node.func, ast.Attribute) \
+                    and isinstance(node.func.value, ast.Name) and node.func.value.id == "datafit":
+                if node.func.attr in ("initialize", "initialize_sparse"):
+                    inits = True
+                called.setdefault(node.func.attr, node)
+        if inits or not called:
+            continue
+        for D in A.prog.datafits:
+            if D.name in CALLER_INITIALISED:
+                continue
+            lazy = set()
+            for iname in ("initialize", "initialize_sparse"):
+                m = D.find_method(iname)
+                if m is None:
+                    continue
+                for a in ast.walk(m.node):
+                    if isinstance(a, (ast.Assign, ast.AugAssign, ast.AnnAssign)):
+                        tg = a.targets if isinstance(a, ast.Assign) else [a.target]
+                        for t in tg:
+                            for e in (t.elts if isinstance(t, ast.Tuple) else [t]):
+                                if isinstance(e, ast.Attribute) and isinstance(e.value, ast.Name) and e.value.id == "self":
+                                    lazy.add(e.attr)
+            ctor = D.find_method("__init__")
+            if ctor is not None:
+                for a in ast.walk(ctor.node):
+                    if isinstance(a, ast.Attribute) and isinstance(a.ctx, ast.Store) \
+                            and isinstance(a.value, ast.Name) and a.value.id == "self":
+                        lazy.discard(a.attr)
+            if not lazy:
+                continue
+
+            def reads(m, seen):
+                out = {}
+                if m is None or m.name in seen:
+                    return out
+                seen.add(m.name)
+                for x in ast.walk(m.node):
+                    if isinstance(x, ast.Attribute) and isinstance(x.value, ast.Name) and x.value.id == "self":
+                        if isinstance(x.ctx, ast.Load) and x.attr in lazy:
+                            out.setdefault(x.attr, (m, x))
+                        elif isinstance(x.ctx, ast.Load) and D.find_method(x.attr) is not None:
+                            for k, v in reads(D.find_method(x.attr), seen).items():
+                                out.setdefault(k, v)
+                return out
+            for mname, site in sorted(called.items()):
+                m = D.find_method(mname)
+                if m is None or m.cls.name.startswith("Base"):
+                    continue
+                n += 1
+                r = reads(m, set())
+                names = ", ".join(c.name for c in classes)
+                ctx.ob(rule, f"{mod.relpath}::{D.name}.{mname}", not r,
+                       what=f"{names} never calls datafit.initialize but calls datafit.{mname} "
+                            f"({mod.relpath}:{site.lineno}); {D.name}.{mname} reads "
+                            f"{', '.join('self.' + k for k in sorted(r))}, assigned only by {D.name}.initialize"
+                            f"[_sparse]: the value cached for the data of an earlier initialisation (or nothing) "
+                            f"is used instead of the (X, y) of this solve",
+                       loc=(f"{r[sorted(r)[0]][0].module.relpath}:{r[sorted(r)[0]][1].lineno}" if r else None))
+    for k, v in CALLER_INITIALISED.items():
+        ctx.note(f"{rule}: {k} exempt: {v}")
+    ctx.floor(rule, n, scope.get("floor", 10))
